@@ -1073,8 +1073,9 @@ impl<'a> CompactionIterator<'a> {
 
 		// We need to iterate with indices to access accumulated_versions
 		let len = self.accumulated_versions.len();
+		let mut outputs: Vec<bool> = Vec::with_capacity(len);
 		for i in 0..len {
-			let (key, value) = &self.accumulated_versions[i];
+			let (key, _) = &self.accumulated_versions[i];
 			let is_hard_delete = key.is_hard_delete_marker();
 			let is_replace = key.is_replace();
 			let is_latest = i == 0;
@@ -1201,12 +1202,37 @@ impl<'a> CompactionIterator<'a> {
 				is_latest
 			};
 
-			if should_output {
-				self.output_versions.push((key.clone(), value.clone()));
-			}
+			outputs.push(should_output);
 
 			// Update for next iteration (this version becomes the "newer" one)
 			newer_version_visibility = Some(current_visibility);
+		}
+
+		// A hard DELETE that is not the latest version hides the versions behind it
+		// from history. Dropping it while some of them are kept would bring them back:
+		// with versioning it goes only together with everything behind it, and above
+		// the bottom level older versions may sit in levels this merge does not see.
+		// (Behind a REPLACE or hard DELETE that is itself kept, it is redundant.)
+		if self.enable_versioning && !latest_is_delete_at_bottom {
+			let mut behind_kept_barrier = false;
+			for i in 0..len {
+				let key = &self.accumulated_versions[i].0;
+				if i > 0
+					&& !outputs[i] && key.is_hard_delete_marker()
+					&& !behind_kept_barrier
+					&& (!self.is_bottom_level || outputs[i + 1..].iter().any(|&kept| kept))
+				{
+					outputs[i] = true;
+				}
+				if outputs[i] && (key.is_hard_delete_marker() || key.is_replace()) {
+					behind_kept_barrier = true;
+				}
+			}
+		}
+		for (i, (key, value)) in self.accumulated_versions.iter().enumerate() {
+			if outputs[i] {
+				self.output_versions.push((key.clone(), value.clone()));
+			}
 		}
 
 		// Clear accumulated versions for the next key
